@@ -125,6 +125,7 @@ struct RunState {
   uint64_t index = 0;
 };
 
+int g_harness_depth = 0;
 static RunState* g_run = nullptr;
 static const Engine* g_engine = nullptr;
 static std::string g_tier = "quick";
@@ -263,6 +264,7 @@ static inline void fold(uint64_t v) {
 
 uint32_t choose(uint32_t n, const char* site) {
   if (n <= 1) return 0;
+  Quiet quiet;
   RunState& r = *g_run;
   uint32_t v;
   if (r.replay) {
@@ -326,6 +328,7 @@ static uint64_t hash_cstr(const char* s) {
 }
 
 void ev(const char* kind, uint64_t a, uint64_t b, uint64_t c) {
+  Quiet quiet;
   RunState& r = *g_run;
   fold(hash_cstr(kind));
   fold(a);
@@ -337,6 +340,7 @@ void ev(const char* kind, uint64_t a, uint64_t b, uint64_t c) {
 }
 
 void note(const std::string& text) {
+  Quiet quiet;
   if (g_run && g_run->verbose) g_run->notes.emplace_back(g_run->events.size(), text);
 }
 
@@ -358,6 +362,7 @@ void hash_u64(uint64_t v) { fold(v); }
 // ------------------------------------------------------------------ verdicts
 
 void fail_soft(const std::string& cls, const std::string& key, const std::string& msg) {
+  Quiet quiet;
   RunState& r = *g_run;
   if (!r.has_violation) {
     r.has_violation = true;
@@ -593,6 +598,13 @@ static void classify_death(int status, const std::string& err_text, std::string&
     size_t q = p + strlen("ERROR: AddressSanitizer: ");
     size_t e = err_text.find_first_of(" \n", q);
     kind = "asan:" + err_text.substr(q, e == std::string::npos ? std::string::npos : e - q);
+    // Which of these a wild access turns into depends on what happens to lie next to the block,
+    // i.e. on heap layout; they are one violation class for gating and shrinking.
+    static const char* MEM[] = {"heap-buffer-overflow", "SEGV", "heap-use-after-free", "stack-buffer-overflow", "global-buffer-overflow",
+        "stack-use-after-return", "stack-use-after-scope", "use-after-poison", "container-overflow", "unknown-crash", "BUS",
+        "stack-buffer-underflow", "dynamic-stack-buffer-overflow", "negative-size-param", "attempting"};
+    for (const char* m : MEM)
+      if (kind == std::string("asan:") + m) kind = "asan:memory-error";
   } else if ((p = err_text.find("runtime error: ")) != std::string::npos) {
     size_t q = p + strlen("runtime error: ");
     size_t e = err_text.find('\n', q);
